@@ -241,8 +241,8 @@ def gen(ctx, cs):
         cs.add_enc(8, 2, bool(n & 1), rand_key(rng, 'rand'), rb(n), 'enc-len-mismatch', length=claimed)
 
     # ---- (b) all 65 536 two-byte headers, complete and truncated remainder ----
-    for h0 in range(256):
-        for h1 in range(256):
+    for h0, h1 in [(a, b) for _rep in range(2 if thorough else 1) for a in range(256) for b in range(256)]:
+        if True:
             l7 = h1 & 127
             if l7 == 126:
                 n = rng.choice([0, 1, 125, 126, 200, 300]) if rng.random() < 0.9 else rng.randrange(0, 2000)
@@ -282,7 +282,7 @@ def gen(ctx, cs):
         cs.add_dec(s, ('%d,0' % k) if k else '0', 'split-zero-read')
 
     # ---- (d) random frames, random plans ----
-    nrand = 6000 if thorough else 900
+    nrand = 40000 if thorough else 900
     maxlen = (1 << 20) if thorough else 65600
     nbig = 0
     for i in range(nrand):
@@ -294,7 +294,7 @@ def gen(ctx, cs):
         elif r < 0.93:
             n = rng.randrange(200, 20000)
         else:
-            if nbig >= (120 if thorough else 14):
+            if nbig >= (160 if thorough else 14):
                 n = rng.randrange(0, 3000)
             else:
                 nbig += 1
@@ -622,7 +622,9 @@ def run(ctx):
                 and len(meta['data']) <= 1500 and 0 not in py_chunk_sizes(meta['plan'], len(meta['data']))]
     flat = model_run(['c10_spec ' + hx(alldec[i][1]['data']) for i in flat_idx])
     flat_of = dict(zip(flat_idx, flat))
-    nsample = 0
+    sampled = set()
+    want_samples = {('roundtrip', 'ok'), ('hdr-complete', 'ok'), ('hdr-truncated', 'err:read'), ('huge-claim', 'err:read'),
+                    ('split-2', 'ok'), ('rand-nonminimal', 'ok'), ('hdr-complete', 'err:opcode'), ('split-zero-read', 'err:read')}
     for i, ((line, meta), a, b) in enumerate(zip(alldec, m, im)):
         tag = meta['tag']
         data, plan = meta['data'], meta['plan']
@@ -689,11 +691,11 @@ def run(ctx):
                 ctx.mark_nontrivial(('dec', a_main[:120], plan[:40]))
         elif tag in ('hdr-truncated', 'rand-truncated', 'huge-claim') and a_cls == 'err:read' and len(data) >= 2:
             ctx.mark_nontrivial(('trunc', data[:14], len(data), plan[:20]))
-        if nsample < 6 and tag in ('roundtrip', 'hdr-truncated', 'huge-claim', 'split-2', 'rand-nonminimal', 'rand-complete') \
-                and (i % 997 == 0 or tag in ('huge-claim',) and i % 50 == 0):
-            nsample += 1
+        skey = (tag, a_cls)
+        if skey in want_samples and skey not in sampled and (tag != 'roundtrip' or ' mask=1 ' in a_main and 'key=00000000' not in a_main):
+            sampled.add(skey)
             ctx.sample({'stream': tag, 'bytes': data[:24].hex() + ('…' if len(data) > 24 else ''), 'n': len(data),
-                        'plan': plan[:40], 'model': a_main[:140], 'impl': b_core[:140]})
+                        'plan': plan[:40], 'model': a_main[:150], 'impl': b_core[:150]})
 
     # ---------------- extraction spot-check inside Coq ----------------
     seen, dsel = {}, []
